@@ -106,6 +106,16 @@ func (s *session) bigScript(b *bigData) {
 		}
 		return
 	}
+	if s.spec.Kind == "encrypt" {
+		// kept apart from the truncated-prefix case: only the two sides of the limit and a corruption
+		do("over1", "", "plain")
+		do("over4k", "", "frag")
+		do("flip", "", "plain")
+		do("under", "", "half")
+		do("at", "", "plain")
+		do("flip", "", "dataeof")
+		return
+	}
 	transports := []string{""}
 	switch s.path {
 	case "put":
